@@ -939,6 +939,19 @@ class Lower:
                 cb = cl[2] if cl[2][0] == "block" else ("block", [("expr", cl[2])], None)
                 body = self.block(cb, lambda a: "Rt.pure ()", ind + 2)
                 return self.ex(recv, lambda it: self.bindc(f"{it}.rs_for_each (fun {ident(cl[1])} =>\n{'  ' * (ind + 2)}{body})", k, ind), ind)
+            if name == "collect" and not args and "collect" in self.rename:
+                # `iter.collect()`: which `FromIterator` impl is meant is resolved by type in Rust (RENAMES)
+                head = f"LeanString.{self.rename['collect']}"
+                wrap = head in self.generated
+                return self.ex(recv, lambda r: self.bindc(self.app(head, [r], wrap), k, ind), ind)
+            if name == "map" and len(args) == 1 and args[0][0] == "closure":
+                # `.map(|c| expr)` with a closure that captures nothing (checked: its body may only mention its parameter)
+                cl = args[0]
+                cb = cl[2] if cl[2][0] == "block" else ("block", [], cl[2])
+                if mentions(cl[2], "self") or (self.owned and mentions(cl[2], self.owned)):
+                    raise Bad("map closure that captures self")
+                body = self.block(cb, lambda a: f"Rt.pure {a}", ind + 2)
+                return self.ex(recv, lambda it: self.bindc(f"{it}.rs_map (fun {ident(cl[1])} =>\n{'  ' * (ind + 2)}{body})", k, ind), ind)
             if len(args) == 1 and args[0][0] == "range":
                 a, b = args[0][1], args[0][2]
                 if a is None and b is not None:
@@ -1317,6 +1330,14 @@ TARGETS = [
     ("lib.rs", "impl LeanString", "from_utf8", "LeanString.from_utf8", True),
     ("lib.rs", "impl LeanString", "from_utf8_lossy", "LeanString.from_utf8_lossy", True),
     ("lib.rs", "impl LeanString", "from_utf16", "LeanString.from_utf16", True),
+    ("lib.rs", "impl LeanString", "from_utf16_lossy", "LeanString.from_utf16_lossy", True),
+    ("lib.rs", "impl<'a> Extend<&'a char> for LeanString", "extend", "LeanString.extend_char_ref", True),
+    ("lib.rs", "impl<'a> Extend<Cow<'a, str>> for LeanString", "extend", "LeanString.extend_cow", True),
+    ("lib.rs", "impl Extend<LeanString> for LeanString", "extend", "LeanString.extend_ls", True),
+    ("lib.rs", "impl<'a> FromIterator<&'a char> for LeanString", "from_iter", "LeanString.from_iter_char_ref", True),
+    ("lib.rs", "impl FromIterator<Box<str>> for LeanString", "from_iter", "LeanString.from_iter_box", True),
+    ("lib.rs", "impl<'a> FromIterator<Cow<'a, str>> for LeanString", "from_iter", "LeanString.from_iter_cow", True),
+    ("lib.rs", "impl FromIterator<LeanString> for LeanString", "from_iter", "LeanString.from_iter_ls", True),
 ]
 # expected Lean signatures (used for the stub of a poisoned function, and checked against the source)
 SIGS = {
@@ -1366,6 +1387,11 @@ SIGS = {
     "LeanString.from_iter_str": ([("iter", "StrIter")], "Handle"), "LeanString.from_iter_string": ([("iter", "StrIter")], "Handle"),
     "LeanString.from_utf8": ([("buf", "ByteSlice")], "Rs Handle"), "LeanString.from_utf8_lossy": ([("buf", "ByteSlice")], "Handle"),
     "LeanString.from_utf16": ([("buf", "U16Slice")], "Rs Handle"),
+    "LeanString.from_utf16_lossy": ([("buf", "U16Slice")], "Handle"),
+    "LeanString.extend_char_ref": ([("iter", "CharIter")], "Unit"), "LeanString.extend_cow": ([("iter", "StrIter")], "Unit"),
+    "LeanString.extend_ls": ([("iter", "StrIter")], "Unit"),
+    "LeanString.from_iter_char_ref": ([("iter", "CharIter")], "Handle"), "LeanString.from_iter_box": ([("iter", "StrIter")], "Handle"),
+    "LeanString.from_iter_cow": ([("iter", "StrIter")], "Handle"), "LeanString.from_iter_ls": ([("iter", "StrIter")], "Handle"),
 }
 
 # method names that Rust resolves by the argument's type
@@ -1374,6 +1400,12 @@ RENAMES = {
     "LeanString.from_iter_str": {"extend": "extend_str"},
     "LeanString.from_iter_string": {"extend": "extend_string"},
     "LeanString.from_utf8": {"from": "from_str_ref"},
+    "LeanString.from_utf16_lossy": {"collect": "from_iter_char"},
+    "LeanString.extend_char_ref": {"extend": "extend_char"},
+    "LeanString.from_iter_char_ref": {"collect": "from_iter_char"},
+    "LeanString.from_iter_box": {"extend": "extend_box"},
+    "LeanString.from_iter_cow": {"extend": "extend_cow"},
+    "LeanString.from_iter_ls": {"extend": "extend_ls"},
 }
 
 def pick64(variants):
